@@ -11,7 +11,7 @@ against reference decompressors).
 "Terminates" is expressed with the models' explicit fuel: there is an amount of fuel from which on the
 result no longer depends on the fuel and is not "still running".
 -/
-import Sqfs.Proofs.XfrmWrapErr
+import Sqfs.Proofs.XfrmIoErr
 namespace Sqfs.C15
 open Sqfs.Xfrm Sqfs.Xfrm.Spec
 
@@ -357,6 +357,53 @@ theorem backend_ostream_transparent {τ : Type} {L : Lib τ} {b : Backend} (hL :
         (chunks.map OOp.append ++ [OOp.flush]) = some (.ok st)) ∧
       st.inbuf = [] ∧ (chunks.flatten ≠ [] → Dec st.sink = some chunks.flatten) ∧ (chunks.flatten = [] → st.sink = []) :=
   ostream_transparent_single (wrapEncContract hL) hb chunks
+
+/-! ### errors of the wrapped streams -/
+
+/--
+The functions the correspondence check runs for `ostream_xfrm` carry the failure path of the wrapped stream
+(`if (ioret) return ioret;`, `return wrapped->flush(wrapped)`); as long as the wrapped stream does not fail they **are** the
+functions of the theorems above (projection: forget the call counter), so those theorems are statements about the tied model.
+-/
+theorem ostream_failure_model_agrees (bufsz fuel : Nat) (ops : List OOp) (s : OStateE σ) :
+    (oRunE C bufsz fuel OEnv.good s ops).map projO = oRun C bufsz fuel s.st ops :=
+  oRunE_good bufsz fuel ops s
+
+/-- **A write error of the wrapped stream is never swallowed**: if call number `k` of `wrapped->append` fails (`e ≠ 0`), a history
+of `append`/`flush` operations that comes back with 0 has not reached that call (for every codec, no contract needed). -/
+theorem ostream_write_error_reported (bufsz fuel : Nat) (E : OEnv) {k : Nat} {e : Int} (hE : E.appendFail = some (k, e)) (he : e ≠ 0)
+    (ops : List OOp) (s s' : OStateE σ) (h : oRunE C bufsz fuel E s ops = some (.ok s')) (hk : s.appends ≤ k) : s'.appends ≤ k :=
+  oRunE_ok_no_append_failure bufsz fuel E hE he ops s s' h hk
+
+/-- … and neither is a failing `wrapped->flush` -/
+theorem ostream_flush_error_reported (bufsz fuel : Nat) (E : OEnv) {k : Nat} {e : Int} (hE : E.flushFail = some (k, e)) (he : e ≠ 0)
+    (ops : List OOp) (s s' : OStateE σ) (h : oRunE C bufsz fuel E s ops = some (.ok s')) (hk : s.st.flushed ≤ k) : s'.st.flushed ≤ k :=
+  oRunE_ok_no_flush_failure bufsz fuel E hE he ops s s' h hk
+
+/-- the same for `istream_xfrm`: without a failing `get_buffered_data` the tied function is `iRead` … -/
+theorem istream_failure_model_agrees (bufsz fuel : Nat) (ops : List (Nat × Nat)) (st : IStateE σ) (acc : Bytes)
+    (hf : st.inner.fail = none) :
+    (iReadE C bufsz fuel st ops acc).map projRead = iRead C bufsz fuel (projI st) ops acc :=
+  iReadE_good bufsz fuel ops st acc hf
+
+/-- … and a **read error of the wrapped stream is never taken for data or for the end**: a reader's run that ends without an
+error has not made the failing call -/
+theorem istream_read_error_reported (bufsz fuel : Nat) {k : Nat} {e : Int} (he : e < 0) (ops : List (Nat × Nat)) (st : IStateE σ)
+    (acc : Bytes) (r : IStateE σ × Bytes × Bool) (hf : st.inner.fail = some (k, e))
+    (h : iReadE C bufsz fuel st ops acc = some (.ok r)) (hk : st.inner.calls ≤ k) : r.1.inner.calls ≤ k :=
+  iReadE_ok_no_failure bufsz fuel he ops st acc r hf h hk
+
+/-- a concrete failing write: the second `wrapped->append` of the flush returns -5; `xfrm_flush` returns -5, one byte stored -/
+example : (match oRunE (Toy.encoder ⟨0, 0, 0⟩) 4 1000 { appendFail := some (1, -5) } ⟨oInit (Toy.encoder ⟨0, 0, 0⟩), 0⟩
+      [OOp.append [65, 66], OOp.flush] with
+    | some (.error e) => some e
+    | _ => none) = some (-5, [1]) := by decide
+
+/-- a concrete failing read: the third `get_buffered_data` of the wrapped stream returns -3 -/
+example : (match iReadE (Toy.decoder ⟨0, 0, 0⟩) 4 1000 ⟨Toy.decFresh, [], 0, ⟨⟨Toy.encode [65, 66, 67], [0, 0, 0, 0, 0, 0, 0, 0]⟩, 0, some (2, -3)⟩⟩
+      [(4, 3), (4, 3), (4, 3), (4, 3)] [] with
+    | some (.error e) => some e
+    | _ => none) = some (-3) := by decide
 
 /--
 **probe_spec** (`tar_open_stream`).  An input in which `ustar` stands at offset 257 (of the first record, or of the second
